@@ -74,4 +74,66 @@ func init() {
 		Assume:  toolAssume,
 		Outside: "markers as map keys; three layers; main.go glue",
 	})
+
+	pipeAssume := append([]string{
+		"bkl.New: os.OpenRoot(\"/\") returns an opaque root handle; os.Environ/os.Getenv are the harness-set environment (empty by default)",
+		"strings.* primitives, utf8string.At/RuneCount, unicode.IsLower (table generated from the real unicode package for runes < U+0800), regexp {.*?} replacement: exact models over byte-array strings of path-concrete length",
+		"fmt.Sprintf: exact for concrete operands (real fmt); for symbolic operands %s/%v of strings, small ints, bools, nil, maps and lists are modelled, %v of a symbolic float64 ends the path as outside the claim",
+		"yaml.Unmarshal of a reference path: real library for concrete text; a symbolic text is covered only when it is certainly a plain YAML string (letter followed by letters/digits/_/./-, not a YAML keyword), otherwise the path ends as outside the claim",
+		"bkl's json/yaml/toml stream codec wrappers are a native boundary (real functions of the linked /repo build on concrete data)",
+	}, stdAssume...)
+	reg(propSpec{
+		ID: "C06",
+		Harnesses: []harnessSpec{
+			{Pkg: "bkl", Func: "HarnessC06_identity", Tiers: "qt", Covers: []string{"identity.checked"},
+				Bound: "document {K1:V1, m:{K3:V3, x:leaf}, l:[V4, leaf]}: one of the five string positions is every printable-ASCII byte string of length <= 6 (quick) / 8 (thorough) satisfying plain(); a second position takes each of 14 plain look-alikes ($FOO, ${X}, $(cmd), $, $A, $\"x, ...); leaves nil/7 (quick) or symbolic-kind scalars incl. nil (thorough)"},
+			{Pkg: "bkl", Func: "HarnessC06_escape", Tiers: "qt", Covers: []string{"escape.single", "escape.layered"},
+				Bound: "same skeleton, the symbolic string unconstrained; second position from 31 tokens incl. every directive name; $ doubled in keys and values; evaluated alone and as the child of a layer"},
+			{Pkg: "bkl", Func: "HarnessC06_keys", Tiers: "qt", Covers: []string{"keys.checked"},
+				Bound: "two sibling keys symbolic at once over the alphabet {$,a,x}, length <= 3 (quick) / 4 (thorough), assumed different"},
+		},
+		Assume:  pipeAssume,
+		Outside: "strings longer than N, non-ASCII bytes (the Latin-1 lower-case clause of validateString is decoded by the engine but no harness puts non-ASCII bytes in yet), three or more simultaneously arbitrary strings, deeper trees",
+	})
+	reg(propSpec{
+		ID: "C07",
+		Harnesses: []harnessSpec{
+			{Pkg: "bkl", Func: "HarnessC07_clean", Tiers: "qt", Covers: []string{"clean.accepted", "clean.rejected", "clean.layered"},
+				Bound: "C06 skeleton with any $$-free printable string of length <= 6 (quick) / 8 (thorough) at any key/value position and one of 25 directive names/shapes at a second position; one layer or on top of a layer holding $required markers; assertion: a successful evaluation emits no key or string equal to $required or shaped $+lower-case"},
+			{Pkg: "bkl", Func: "HarnessC07_required", Tiers: "qt", Covers: []string{"required.met", "required.unmet"},
+				Bound: "lower layer with $required at any subset of {map value, nested map value, list entry}; upper layer overriding any subset, or mentioning the map without the marker"},
+			{Pkg: "bkl", Func: "HarnessC07_hidden", Tiers: "qt", Covers: []string{"hidden.checked"},
+				Bound: "an unknown directive-shaped string (every such printable string <= 6 / 9 bytes) as value, key or list entry (next to $required) under $output: false"},
+			{Pkg: "bkl", Func: "HarnessC07_encode", Tiers: "qt", Covers: []string{"encode.checked"},
+				Bound: "the same strings inside an $encode: json subtree: evaluation must fail"},
+		},
+		Assume:  pipeAssume,
+		Outside: "YAML anchors (parser); strings longer than N; paths on which a symbolic string reaches the YAML reference-path parser and is not certainly a plain string (counted as 'outside' in the evidence)",
+	})
+	reg(propSpec{
+		ID: "C08",
+		Harnesses: []harnessSpec{
+			{Pkg: "bkl", Func: "HarnessC08_fuzz", Tiers: "qt", Covers: []string{"fuzz.error", "fuzz.output", "fuzz.layered"},
+				Bound: "each of 13 directive keys with an argument of arbitrary kind (symbolic-kind scalar with ints in [-2,5], 16 directive/path strings, [], {}, [s], [str], {a:s}, [{a:1},x], {$match:{},$path:a}) at 7 positions (root, nested map, nested with siblings, list entry, list entry with sibling, two levels down, host under its own key), alone and as the upper of two layers; engine-enforced: no reachable panic, every path within 5e6 instructions and 20000 frames"},
+			{Pkg: "bkl", Func: "HarnessC08_strings", Tiers: "qt", Covers: []string{"fuzz.error", "fuzz.output"},
+				Bound: "16 directive-shaped strings as value, list entry, key, nested key and $value argument, next to a second such string"},
+			{Pkg: "bkl", Func: "HarnessC08_refs", Tiers: "qt", Covers: []string{"refs.cyclic", "refs.acyclic"},
+				Bound: "all reference graphs over three nodes (13^3 documents): each node a leaf or one reference ($merge key, $replace key, $merge: string, interpolation) to any node; every cycle outside region C08-K2 must be reported as an error"},
+		},
+		Assume:  pipeAssume,
+		Outside: "byte-level robustness of the JSON/TOML/YAML parsers; the CLI fatal()/exit path; $parent cycles between files (see C03); legitimately large outputs ($repeat counts > 5); known finding C08-K2 (cycles through a map-key $merge, mixed interpolation cycles)",
+	})
+	reg(propSpec{
+		ID: "C11",
+		Harnesses: []harnessSpec{
+			{Pkg: "bkl", Func: "HarnessC11_output", Tiers: "qt", Covers: []string{"out.one", "out.multi", "out.none"},
+				Bound: "one document of depth <= 2 (quick) / 3 (thorough): maps over {a,b} with $output true/false/absent, lists <= 2 with a marker entry true/false/absent at front or back; distinct concrete leaves"},
+			{Pkg: "bkl", Func: "HarnessC11_stream", Tiers: "qt", Covers: []string{"out.one", "out.multi", "out.none"},
+				Bound: "two documents (depth <= 2 and <= 1), whole documents may be hidden"},
+			{Pkg: "bkl", Func: "HarnessC11_symleaf", Tiers: "qt", Covers: []string{"out.one", "out.multi"},
+				Bound: "symbolic-kind scalar leaves: two documents of depth <= 1 (quick); one document of depth <= 2 (thorough)"},
+		},
+		Assume:  pipeAssume,
+		Outside: "depth > 3; non-boolean marker values; list entries that are exactly {$output: b} (by construction a list marker, not a marked empty map); known finding C11-R1",
+	})
 }
